@@ -1000,7 +1000,12 @@ impl World {
         let mut sr = None;
         let mut up = vec![];
         if with_props && form == 2 {
-            rs = Some(format!("bye{n}"));
+            // every third one with a reason string that takes the property section past 127 bytes, one in 18 past 16 383
+            rs = Some(match n % 18 {
+                5 => format!("bye{n} {}", "z".repeat(16_400)),
+                x if x % 3 == 0 => format!("bye{n} {}", "y".repeat(100 + (n % 60) as usize)),
+                _ => format!("bye{n}"),
+            });
             sr = Some(format!("srv{n}"));
             up = vec![(format!("dk{n}"), format!("dv{n}")), (format!("dk{n}"), "again".to_string())];
             props.push(Prop::pair(&up[0].0, &up[0].1));
